@@ -72,6 +72,9 @@ func (m *Mutex) Unlock() {
 	for _, ch := range ws {
 		close(ch)
 	}
+	if len(ws) > 0 {
+		unlockYield("mutex.Unlock.yield")
+	}
 }
 
 // RWMutex replaces sync.RWMutex in instrumented code; see Mutex.
@@ -101,6 +104,9 @@ func (m *RWMutex) wake() {
 	m.g.Unlock()
 	for _, ch := range ws {
 		close(ch)
+	}
+	if len(ws) > 0 {
+		unlockYield("rwmutex.Unlock.yield")
 	}
 }
 
